@@ -1,4 +1,4 @@
-\* thorough: instance-write side with 4 valid instance-write descriptors + 1 method,
+\* thorough: instance-write side with the quick descriptors but
 \* 12 namespace arguments, 12 targets, keys {1,2}, <= 2 instances
 SPECIFICATION Spec
 CONSTANTS
@@ -8,7 +8,7 @@ CONSTANTS
   PragmaCaseSensitive = FALSE
   RecompileExisting = FALSE
   Variant = "none"
-  Provs <- ProvsBigIw
+  Provs <- ProvsIw
   NsArgs <- NsArgsBig
   SetupBehs = {"ok", "raise"}
   Targets <- TargetsBig
@@ -16,7 +16,7 @@ CONSTANTS
   GenDepth = 0
   MaxStore = 2
   IwLevel = "full"
-  MethLevel = "lite"
+  MethLevel = "off"
 INVARIANT ImplRefinesReq
 INVARIANT MappingHolds
 INVARIANT ReqWellFormed
